@@ -8,11 +8,11 @@
 EXTENDS Text, Json
 CONSTANTS MaxLen, Part, NParts
 
-Plain == {"dq", "sq", "bs", "pct", "lb", "rb", "nl", "na", "n", "v", "q", "sp", "cc", "ap"}
+Plain == {"dq", "sq", "bs", "pct", "lb", "rb", "nl", "na", "n", "v", "q", "sp", "cc", "ap", "cm"}
 Strings(A, n) == UNION {[1..k -> A] : k \in 1..n}
 Code(c) == CASE c = "dq" -> 1 [] c = "sq" -> 2 [] c = "bs" -> 3 [] c = "pct" -> 4 [] c = "lb" -> 5 [] c = "rb" -> 6
              [] c = "nl" -> 7 [] c = "na" -> 8 [] c = "n" -> 9 [] c = "v" -> 10 [] c = "q" -> 11 [] c = "sp" -> 12
-             [] c = "P1" -> 13 [] c = "P2" -> 14 [] c = "cc" -> 15 [] c = "ap" -> 16
+             [] c = "P1" -> 13 [] c = "P2" -> 14 [] c = "cc" -> 15 [] c = "ap" -> 16 [] c = "cm" -> 17
 RECURSIVE HashS(_)
 HashS(s) == IF Len(s) = 0 THEN 5 ELSE (Code(Head(s)) + 17 * HashS(Tail(s))) % 1000003
 
